@@ -316,15 +316,12 @@ def check_object(obj, parse_cls=None):
             parse_cls.__name__, hx(ref), core.err_line(exc))))
         return bad
     if type(parsed) is not cls:
-        key = 'cotp-confirm-as-request' if name == 'COTPConnectionConfirm' else 'type:' + name
-        bad.append((key, '{}.parse_exact_size({}) returned a {} (the PDU on the wire is a {})'.format(
+        bad.append(('type:' + name, '{}.parse_exact_size({}) returned a {} (the PDU on the wire is a {})'.format(
             parse_cls.__name__, hx(ref), type(parsed).__name__, name)))
     try:
         pf = fields(parsed)
     except Exception as exc:  # pylint: disable=broad-except
         pf = repr(exc)
-    if cotp and isinstance(pf, dict):
-        pf = dict(pf, code=f['code'])     # the class is judged above
     if pf != f:
         if cotp and pf == dict(f, dst_ref=f['src_ref'], src_ref=f['dst_ref']):
             if not any(k == 'cotp-ref-order' for k, _ in bad):
@@ -418,19 +415,22 @@ class LdapOracle(object):
         except Exception as exc:  # pylint: disable=broad-except
             bad.append(('rejects-conformant:' + type(obj).__name__, '{}: {} rejected: {}'.format(
                 type(obj).__name__, hx(ref), core.err_line(exc))))
-        # the message type on the wire decides: the other class must not accept it as its own
+        # the message type on the wire decides: the other class refuses it with InvalidType — it neither returns an
+        # object of its own class nor raises anything else (with or without bytes following the message)
         other = LDAPExtendedResponseStartTLS if case['rc'] is None else LDAPExtendedRequestStartTLS
-        try:
-            wrong = other.parse_exact_size(ref)
-            key = 'ldap-response-as-request' if case['rc'] is not None else 'ldap-request-as-response'
-            bad.append((key, '{}.parse_exact_size({}) returned a {} although the protocolOp on the wire is {}'.format(
-                other.__name__, hx(ref), type(wrong).__name__,
-                'extendedResp [APPLICATION 24]' if case['rc'] is not None else 'extendedReq [APPLICATION 23]')))
-        except Exception as exc:  # pylint: disable=broad-except
-            line = core.err_line(exc)
-            if line.startswith('CRASH'):
-                bad.append(('ldap-wrong-type-crash', '{}.parse_exact_size({}) raised {} ({})'.format(
-                    other.__name__, hx(ref), type(exc).__name__, str(exc)[:100])))
+        on_wire = 'extendedResp [APPLICATION 24]' if case['rc'] is not None else 'extendedReq [APPLICATION 23]'
+        for call, data in ((other.parse_exact_size, ref), (other.parse_immutable, ref + b'\x30')):
+            try:
+                wrong = call(data)
+                key = 'ldap-response-as-request' if case['rc'] is not None else 'ldap-request-as-response'
+                bad.append((key, '{}.{}({}) returned {} although the protocolOp on the wire is {}'.format(
+                    other.__name__, call.__name__, hx(data), canon.generic(wrong)[:80], on_wire)))
+            except Exception as exc:  # pylint: disable=broad-except
+                line = core.err_line(exc)
+                if line != 'ERR InvalidType':
+                    bad.append(('ldap-wrong-type:' + line.replace(' ', '_'),
+                                '{}.{}({}) raised {} ({}); expected InvalidType, the protocolOp on the wire is {}'.format(
+                                    other.__name__, call.__name__, hx(data), type(exc).__name__, str(exc)[:100], on_wire)))
         return bad
 
 
@@ -469,15 +469,24 @@ class ProbeOracle(object):
                             back if isinstance(back, Exception) else sorted(p.name for p in back.protocol))))
                         break
         elif name == 'strnul-embedded-nul':
-            obj = mysql.MySQLHandshakeV10(mysql.MySQLVersion.MYSQL_10, '5\x007', 7, b'12345678', {mysql.MySQLCapability.CLIENT_SSL})
-            composed = _t(obj.compose)
-            if not isinstance(composed, Exception):
-                back = _t(lambda: mysql.MySQLHandshakeV10.parse_immutable(bytes(composed))[0])
-                if isinstance(back, Exception) or back.server_version != obj.server_version:
-                    bad.append(('strnul-embedded-nul', 'MySQLHandshakeV10(server_version={!r}) composes (NUL not rejected) to {} '
-                                'which parses as {}'.format(obj.server_version, hx(composed),
-                                                            core.err_line(back) if isinstance(back, Exception)
-                                                            else repr(back.server_version))))
+            # a NUL inside a null-terminated string cannot be represented: the composer must refuse it (InvalidValue),
+            # in the server version and in the plugin name alike
+            caps = {mysql.MySQLCapability.CLIENT_SSL, mysql.MySQLCapability.CLIENT_PLUGIN_AUTH}
+            for kwargs in ({'server_version': '5\x007', 'auth_plugin_name': 'x'}, {'server_version': '5.7', 'auth_plugin_name': 'a\x00b'},
+                           {'server_version': '\x00', 'auth_plugin_name': 'x'}):
+                obj = mysql.MySQLHandshakeV10(protocol_version=mysql.MySQLVersion.MYSQL_10, connection_id=7,
+                                              auth_plugin_data=b'12345678', capabilities=caps, auth_plugin_data_2=b'0123456789abc',
+                                              **kwargs)
+                composed = _t(obj.compose)
+                if isinstance(composed, Exception):
+                    if core.err_line(composed) != 'ERR InvalidValue':
+                        bad.append(('strnul-embedded-nul', 'MySQLHandshakeV10({}).compose() raised {} instead of InvalidValue'.format(
+                            kwargs, core.err_line(composed))))
+                else:
+                    back = _t(lambda: mysql.MySQLHandshakeV10.parse_immutable(bytes(composed))[0])  # pylint: disable=cell-var-from-loop
+                    bad.append(('strnul-embedded-nul', 'MySQLHandshakeV10({}) composes (NUL not rejected) to {} which parses as {}'.format(
+                        kwargs, hx(composed), core.err_line(back) if isinstance(back, Exception)
+                        else (back.server_version, back.auth_plugin_name))))
         elif name == 'mysql-v10-part2':
             # a MySQL 5.1 greeting: CLIENT_SECURE_CONNECTION without CLIENT_PLUGIN_AUTH, 13 bytes of part 2 follow
             greeting = ref_mysql_v10({'version': 10, 'server_version': b'5.1.73', 'thread_id': 9, 'part1': b'abcdefgh',
